@@ -161,7 +161,7 @@ def scenario(ctx):
 	pool = Q.build(ctx, random.Random(ch.subseed('pool')), PoolWorld(kspec, founders), ch.int(2, 8, 'n_pool'))
 	cache = SigCache(pool)
 	ctx.log('world', k=kspec.k, prefix=kspec.prefix_str, pool=[(g['stem'] + g['ext'], blob_hash(g['sig'])) for g in pool.genomes])
-	all_paths = [g['plain'] for g in pool.genomes] + [g['gz'] for g in pool.genomes]
+	all_paths = [g['plain'] for g in pool.genomes] + [g['gz'] for g in pool.genomes] + [g['alias'] for g in pool.genomes if g['alias']]
 	npool = len(pool.genomes)
 	omp.set_threads(ch.int(1, 16, 'initial_threads'))
 	n_cmd = ch.int(5, 10, 'n_cmd')
@@ -186,8 +186,8 @@ def scenario(ctx):
 			else:
 				eff = DEFAULT_KMERSPEC
 				kargs = []
-			forms = [ch.pick(['plain', 'gz'], f'{L}.f{i}') for i in range(n)]
-			paths = [pool.genomes[g][f] for g, f in zip(idxs, forms)]
+			forms = [ch.pick(['plain', 'gz', 'plain', 'gz', 'alias'], f'{L}.f{i}') for i in range(n)]
+			paths = [pool.genomes[g][f] or pool.genomes[g]['plain'] for g, f in zip(idxs, forms)]
 			if channel == 'positional':
 				args_in = list(paths)
 				labels = [label_model(p) for p in paths]
@@ -200,7 +200,8 @@ def scenario(ctx):
 				args_in = ['-l', lf, '--ldir', base]
 				labels = [label_model(r) for r in rels]
 		args = ['tree'] + kargs + (['-c', str(cores)] if cores is not None else []) + ['--progress' if progress else '--no-progress'] + args_in
-		res, h = run_cli(ctx, args, knobs, short_paths=all_paths, short_seed=ch.subseed(L + '.short'))
+		cwd = pool.decoy_cwd if ch.flip(0.5, L + '.decoy_cwd') else None
+		res, h = run_cli(ctx, args, knobs, short_paths=all_paths, short_seed=ch.subseed(L + '.short'), cwd=cwd, ch=ch, label=L)
 		ctx.stats['executions'] += 1
 		order = list(h.sim.completion_order)
 		text = res.stdout
